@@ -115,6 +115,11 @@ def lemma_unit(name):
     return dict(logic=name, n=n, bad=bad, stats=stats.asdict())
 
 
+# fixed shapes: the counter of fresh constants wrapping to the first subscript next to the last
+# unsubscripted constant; a one-node alternative that is already on the branch and ticked
+SPECIAL = ['Hs:SxKFxGs:SxNFx', 'Fs:SxGx:SxNGx:Gs', 'a:Kbc:AaKbc', 'c:LMa:MKLdNd:Me']
+
+
 def plan(ctx):
     from pytableaux.logics import registry
     registry.import_all()
@@ -125,10 +130,11 @@ def plan(ctx):
     for name in names:
         if ctx.quick:
             sel = fam.select(pool, 40, ctx.seed + 1, name) + fam.select(p1, 40, ctx.seed, name) \
-                + fam.select(p2, 40, ctx.seed, name)
+                + fam.select(p2, 40, ctx.seed, name) + fam.select(fam.side_premise(), 20, ctx.seed, name) \
+                + SPECIAL
         else:
             sel = pool + fam.select(p1, 200, ctx.seed, name) + fam.select(p2, 600, ctx.seed, name) \
-                + fam.random_args(ctx.seed, 60)
+                + fam.random_args(ctx.seed, 60) + fam.side_premise() + SPECIAL
         sel = list(dict.fromkeys(sel))
         n = 3 if ctx.quick else 8
         for k in range(n):
@@ -178,8 +184,8 @@ def run(ctx):
         trunk_lemma_obligations=lem,
         lemmas_discharged_elsewhere=dict(rules='C04', closure='C05', freshness='C06'),
         bounds=dict(worlds=3, domain=3,
-                    arguments='40 family + 80 propositional per logic by seed' if ctx.quick
-                    else 'all family + 800 propositional + 60 random per logic',
+                    arguments='40 family + 80 propositional + 20 side-premise per logic by seed + 4 fixed' if ctx.quick
+                    else 'all family + 800 propositional + 60 random + side-premise (144) + 4 fixed per logic',
                     options='both flags symbolic (4 paths)', order_seed=ctx.seed, max_steps=600),
         solver=stats.asdict(),
         functions_executed=['System.build_trunk', 'Tableau.build', 'all rules, closure rules'],
